@@ -3278,6 +3278,17 @@ class ShiftIndex(Blockwise):
         return {"freq": self.freq} if self.freq is not None else {}
 
 
+def _clear_known_divisions(operands):
+    return [
+        (
+            ClearDivisions(op)
+            if isinstance(op, Expr) and op.ndim > 0 and op.known_divisions
+            else op
+        )
+        for op in operands
+    ]
+
+
 class MaybeAlignPartitions(Expr):
     _projection_passthrough = False
     _expr_cls = None
@@ -3312,9 +3323,12 @@ class MaybeAlignPartitions(Expr):
             or all(
                 dfs[0].divisions == df.divisions and df.known_divisions for df in dfs
             )
-            or len(self.divisions) == 2
         ):
             return self._expr_cls(*self.operands)
+        elif len(self.divisions) == 2 and self.divisions[0] is None:
+            # single partitions, not all with known divisions: nothing to align, but a
+            # blockwise operation needs operands with equal divisions
+            return self._expr_cls(*_clear_known_divisions(self.operands))
         elif self.divisions[0] is None:
             # We have to shuffle
             npartitions = max(df.npartitions for df in dfs)
@@ -3474,9 +3488,11 @@ class OpAlignPartitions(MaybeAlignPartitions):
             or all(
                 dfs[0].divisions == df.divisions and df.known_divisions for df in dfs
             )
-            or len(self.divisions) == 2
         ):
             return self._op(self.frame, self.op, self.other, *self.operands[3:])
+        elif len(self.divisions) == 2 and self.divisions[0] is None:
+            frame, other = _clear_known_divisions([self.frame, self.other])
+            return self._op(frame, self.op, other, *self.operands[3:])
         elif self.divisions[0] is None:
             # Unknown divisions say nothing about which rows are in which partition
             # (also when the partition counts happen to be equal): co-locate equal
